@@ -350,8 +350,54 @@ def _task_e(args):
     return n, vios, sample, 0
 
 
+def _task_f(args):
+    """two messages of one addressed PGN from one sender to two destinations, encoded one after the other and put on the bus
+    with their frames alternating: each is reassembled on its own"""
+    fmt, = args
+    bl = [L for L in boundary_lengths() if L >= 7][::3]
+    vios, n = [], 0
+    cid = CARRIERS[126720][0]
+    for LA in bl:
+        for LC in bl:
+            enc, dec = NMEA2000Encoder(), NMEA2000Decoder()
+            pa, pc = pattern("asc", LA), pattern("seeded", LC, 5)
+            frames = {}
+            try:
+                for tag, dst, pay in (("a", 9, pa), ("c", 37, pc)):
+                    enc._call_encode_function = lambda m, _p=pay: _p
+                    frames[tag] = encode(enc, fmt, NMEA2000Message(PGN=126720, id=cid, priority=3, source=5, destination=dst))
+            except Exception:  # noqa: BLE001
+                continue
+            order = []
+            for i in range(max(len(frames["a"]), len(frames["c"]))):
+                for tag in ("a", "c"):
+                    if i < len(frames[tag]):
+                        order.append((tag, i))
+            got = {"a": [], "c": []}
+            err = None
+            for tag, i in order:
+                try:
+                    m = feed(dec, fmt, frames[tag][i])
+                except Exception as ex:  # noqa: BLE001
+                    err = f"frame {i} of message {tag}: {type(ex).__name__}: {ex}"
+                    break
+                if m is not None:
+                    got[tag].append((i, m.destination, observed_int(m) if m.id == cid else None))
+            n += 1
+            for tag, dst, pay in (("a", 9, pa), ("c", 37, pc)):
+                want = [(len(frames[tag]) - 1, dst, int.from_bytes(pay, "little"))]
+                if err or got[tag] != want:
+                    if len(vios) < 30:
+                        vios.append({"kind": "interleaved_destinations", "facts": {"format": fmt, "part": "f"}, "signature": f"f:{fmt}",
+                                     "detail": f"{fmt}: messages of {LA} and {LC} bytes to destinations 9 and 37, frames alternating: message to {dst} "
+                                               f"{'-> ' + err if err else 'returned ' + str([(g[0], g[1]) for g in got[tag]]) + ', expected once at frame ' + str(want[0][0]) + ' with its own payload'}",
+                                     "case": {"part": "f", "format": fmt, "LA": LA, "LC": LC}})
+                    break
+    return n, vios, {"part": "f", "format": fmt, "pairs": len(bl) ** 2}, 0
+
+
 def _dispatch(t):
-    return {"a": _task_a, "b": _task_b, "chain": _task_chain, "c": _task_c, "d": _task_d, "e": _task_e}[t[0]](t[1])
+    return {"f": _task_f, "a": _task_a, "b": _task_b, "chain": _task_chain, "c": _task_c, "d": _task_d, "e": _task_e}[t[0]](t[1])
 
 
 def run(ctx):
@@ -366,6 +412,7 @@ def run(ctx):
         for i in range(0, len(bl), 4 if ctx.thorough else 14):
             tasks.append(("b", (fmt, bl[i:i + (4 if ctx.thorough else 14)], depth)))
         tasks.append(("chain", (fmt,)))
+        tasks.append(("f", (fmt,)))
         multi = [L for L in boundary_lengths() if wire.n_frames(L) >= 2]
         for i in range(0, len(multi), 6):
             tasks.append(("e", (fmt, multi[i:i + 6])))
@@ -386,7 +433,7 @@ def run(ctx):
         tasks.append(("c", (fast_enc[i:i + 12],)))
     results = common.pmap(_dispatch, tasks)
     vios, samples = [], []
-    counts = {"a": 0, "b": 0, "chain": 0, "c": 0, "d": 0, "e": 0}
+    counts = {"a": 0, "b": 0, "chain": 0, "c": 0, "d": 0, "e": 0, "f": 0}
     seqs = 0
     for t, (n, v, s, sq) in zip(tasks, results):
         counts[t[0]] += n
@@ -442,6 +489,9 @@ def replay(ctx, rep):
     if c["part"] == "chain":
         n, v, s, q = _task_chain((c["format"],))
         return v
+    if c["part"] == "f":
+        n, v, s, q = _task_f((c["format"],))
+        return [x for x in v if x["case"]["LA"] == c["LA"] and x["case"]["LC"] == c["LC"]][:1] or v[:1]
     if c["part"] == "e":
         n, v, s, q = _task_e((c["format"], [c["LA"]]))
         return [x for x in v if x["case"]["j"] == c["j"] and x["case"]["LB"] == c["LB"] and x["case"].get("pre") == c.get("pre")][:1] or v[:1]
